@@ -222,8 +222,9 @@ OuterLoop:
 
 			url.Init()
 			rl.bindPolicyToURL(url)
+			// The limiter is shared with the previous generation, which may
+			// still be handling requests (and may be inherited from again).
 			url.rl = prev.rl
-			prev.rl = nil
 			rl.setStateListenerForURL(url)
 			continue OuterLoop
 		}
